@@ -187,7 +187,7 @@ pub fn contracts() -> Vec<Contract> {
             "CompactEncoding for DataSeek::encoded_size", "CompactEncoding for DataSeek::encode", "CompactEncoding for DataSeek::decode",
             "CompactEncoding for DataUpgrade::encoded_size", "CompactEncoding for DataUpgrade::encode", "CompactEncoding for DataUpgrade::decode", "Node::new"],
             search: search_wire, rerun: rerun_wire },
-        Contract { name: "e2e.read_only_hygiene", covers: &["Hypercore::make_read_only", "Oplog::flush", "Oplog::insert_header", "Hypercore::flush_bitfield_and_tree_and_oplog", "Hypercore::new", "Hypercore::append_batch"], search: search_hygiene, rerun: rerun_hygiene },
+        Contract { name: "e2e.read_only_hygiene", covers: &["Hypercore::make_read_only", "Oplog::flush", "Oplog::insert_header", "Hypercore::flush_bitfield_and_tree_and_oplog", "Hypercore::new", "Hypercore::append_batch", "HypercoreBuilder::new", "HypercoreBuilder::key_pair", "HypercoreBuilder::open", "HypercoreBuilder::build"], search: search_hygiene, rerun: rerun_hygiene },
         Contract { name: "e2e.events", covers: &["Hypercore::append_batch", "Hypercore::get", "Hypercore::verify_and_apply_proof", "Hypercore::clear", "Events::new", "Events::send", "Events::send_on_get"], search: search_events, rerun: rerun_events },
     ]
 }
